@@ -29,6 +29,9 @@ Keys == {F(V("hs"), <<Fl(f, <<S("a"), v>>)>> \o Show) : f \in {"where", "reject"
         \cup {F(V("hs"), <<Fl(f, <<S("a")>>)>> \o Show) : f \in {"where", "reject", "compact", "sort", "uniq"}}
         \cup {F(V("hs"), <<Fl(f, <<S("a"), v>>)>>) : f \in {"find_index", "has"}, v \in {I(2), V("n"), S("b"), I(99)}}
         \cup {F(V("hs"), <<Fl("map", <<S(k)>>), Fl("join", <<S(",")>>)>>) : k \in {"a", "t"}}
+        \* what map leaves for a missing key is nil for every later filter
+        \cup {F(V("hs"), <<Fl("map", <<S("a")>>), Fl(f, <<>>), Fl("join", <<S(",")>>)>>) : f \in {"uniq", "compact", "reverse"}}
+        \cup {F(V("hs"), <<Fl("map", <<S("a")>>), Fl(f, <<>>), Fl("size", <<>>)>>) : f \in {"uniq", "compact"}}
         \cup {F(V("hs"), <<Fl("sum", <<S("a")>>)>>), F(V("hs"), <<Fl("sort", <<S("t")>>)>> \o Show), F(V("hs"), <<Fl("uniq", <<S("t")>>)>> \o Show)}
 \* find returns a hash: show a property of what was found
 Finds == {Assign("f", F(V("hs"), <<Fl("find", <<Lam(<<"x">>, c)>>)>>)) : c \in Conds}
